@@ -48,6 +48,12 @@ class Contract:
         # ghost results: names (starting with _ghost) set by the executor while running the body (e.g. the insertion
         # index of sorted()); usable in ensures; at modular call sites they are fresh existential witnesses
         self.ghost_results = dict(kw.pop("ghost_results", {}))
+        # ghost code: {"after:<first source line of a statement>": ["ghost statement", ...]}; ghost statements may only
+        # assign to fields / map entries listed in ghost_fields (checked), so they cannot influence the real computation
+        self.ghost = dict(kw.pop("ghost", {}))
+        self.ghost_fields = set(kw.pop("ghost_fields", []))
+        # frame of modular calls on heap maps: [(map expression, key expression)] evaluated in the pre-state
+        self.modifies_maps = list(kw.pop("modifies_maps", []))
         if kw:
             raise TypeError("unknown contract options %r for %s" % (list(kw), key))
         self._clauses = {}
@@ -124,3 +130,19 @@ def implies(a, b):
 
 def bitlen(n):
     return int(n).bit_length()
+
+
+def forall_int(fn):
+    """Clause-level quantifier over all integers: forall_int(lambda k: P(k)). Not evaluable natively."""
+    raise NotImplementedError("forall_int is a proof-only quantifier")
+
+
+def enum_key(member):
+    """Integer key under which an enum member is stored in the executor's heap maps (proof-only)."""
+    raise NotImplementedError("enum_key is proof-only")
+
+
+def forall_enum(cls, fn):
+    """forall_enum(EnumClass, lambda m: P(m)): P holds for every member (natively: all(...))."""
+    from .values import enum_members
+    return all(fn(m) for m in enum_members(cls))
